@@ -232,6 +232,12 @@ fn grammar_of_src(src: &str) -> (String, String, Option<OpTable>, Option<String>
             let d = zoo::zoo_dir(f[1]);
             ("zoo".into(), std::fs::read_to_string(d.join("grammar.json")).expect("zoo grammar"), None, std::fs::read_to_string(d.join("scanner.c")).ok())
         }
+        "chain" => {
+            let seed: u64 = f[1].parse().unwrap();
+            let k: usize = f[2].parse().unwrap();
+            let mut rng = Rng::new(seed ^ 0xC4A1 ^ (k as u64).wrapping_mul(0x9E37));
+            ("cfg".into(), serde_json::to_string(&unit_chain_grammar(&mut rng, &format!("c03chain{k}"))).unwrap(), None, None)
+        }
         "lalr" => {
             let seed: u64 = f[1].parse().unwrap();
             let k: usize = f[2].parse().unwrap();
@@ -322,6 +328,13 @@ fn main() {
         let name = format!("c03lalr{k}");
         let json = serde_json::to_string(&lalr_split_grammar(&mut grng, &name)).unwrap();
         explore_token_grammar(&mut em, &mut cu, &mut rng, &name, "cfg", &format!("lalr:{seed}:{k}"), &json, None, budget, nrandom, &mut stats);
+    }
+    // chains of unit / near-unit productions (LR closure: explicit vs propagated look-aheads)
+    for k in 0..(if thorough { 150 } else { 16 }) {
+        let mut grng = Rng::new(seed ^ 0xC4A1 ^ (k as u64).wrapping_mul(0x9E37));
+        let name = format!("c03chain{k}");
+        let json = serde_json::to_string(&unit_chain_grammar(&mut grng, &name)).unwrap();
+        explore_token_grammar(&mut em, &mut cu, &mut rng, &name, "cfg", &format!("chain:{seed}:{k}"), &json, None, budget.max(6000), nrandom, &mut stats);
     }
     // random CFGs: each from its own seed so that a spec can rebuild it
     let mut k = 0usize;
